@@ -1,32 +1,34 @@
 #!/bin/bash
-# usage: confirm_seed.sh <worktree> <Cxx> <seed-dir-name>
-# Confirms a seeded change independently: demo fails with the change, passes without, the
-# 55 baseline tests pass with the change; then stores it under /verif/seeded/<name>/ and
-# records which /verif checks report it.  (Development helper, not a registered check.)
-wt=$1; pid=$2; name=$3
+# usage: confirm_seed.sh <dir with patch.diff + demo_Cxx.py [+ meta.json]> <Cxx> <seed-dir-name>
+# Confirms a seeded change independently on scratch copies of the CURRENT /repo (no git stash, no
+# shared state): the demo fails with the change and passes without, the baseline tests pass with
+# the change; stores it under /verif/seeded/<name>/ and records which /verif checks report it
+# (relative to the unchanged tree).  Development helper, not a registered check.
+src=$1; pid=$2; name=$3
 out=/verif/seeded/$name; mkdir -p $out
-cd $wt || exit 1
-git diff -- pyins > $out/patch.diff
-cp demo_$pid.py $out/ 2>/dev/null
-cp meta.json $out/agent_meta.json 2>/dev/null
+cp $src/patch.diff $out/patch.diff || exit 1
+cp $src/demo_$pid.py $out/ 2>/dev/null
+[ -f $src/meta.json ] && cp $src/meta.json $out/agent_meta.json
+base=$(mktemp -d /tmp/seedbase_XXXX); mut=$(mktemp -d /tmp/seedmut_XXXX)
+for d in $base $mut; do cp -r /repo/pyins /repo/pyproject.toml $d/ 2>/dev/null; rm -rf $d/pyins/__pycache__; done
 log=$out/confirm.log; : > $log
+( cd $mut && patch -p1 -s < $out/patch.diff ) >> $log 2>&1 || { echo "PATCH DOES NOT APPLY to current /repo" | tee -a $log; }
+cp $out/demo_$pid.py $base/; cp $out/demo_$pid.py $mut/
 echo "== demo with change" >> $log
-( cd $wt && timeout 1500 /venv/bin/python demo_$pid.py >> $log 2>&1 ); rc_with=$?
+( cd $mut && timeout 2400 /venv/bin/python demo_$pid.py >> $log 2>&1 ); rc_with=$?
 echo "exit $rc_with" >> $log
-git stash -q -- pyins
 echo "== demo without change" >> $log
-( cd $wt && timeout 1500 /venv/bin/python demo_$pid.py >> $log 2>&1 ); rc_without=$?
+( cd $base && timeout 2400 /venv/bin/python demo_$pid.py >> $log 2>&1 ); rc_without=$?
 echo "exit $rc_without" >> $log
-git stash pop -q
 echo "== test suite with change" >> $log
-( cd $wt && timeout 3000 /venv/bin/python -m pytest -q -p no:cacheprovider -n 6 --deselect pyins/tests/test_sim.py::test_Turntable pyins/tests 2>&1 | tail -3 >> $log )
+( cd $mut && timeout 3000 /venv/bin/python -m pytest -q -p no:cacheprovider -n 5 --deselect pyins/tests/test_sim.py::test_Turntable pyins/tests 2>&1 | tail -3 >> $log )
 tests=$(grep -E "passed|failed" $log | tail -1)
 echo "== checks on the changed tree" >> $log
 caught=""
 for p in C01 C02 C03 C04 C05 C06 C07 C08 C09 C10 C11 C12 C13 C14 C15 C16 C17 C18 C19; do
-  r=$(cd /verif && /venv/bin/python -I check.py $p --root $wt --no-evidence 2>&1)
+  r=$(cd /verif && /venv/bin/python -I check.py $p --root $mut --no-evidence 2>&1)
   if echo "$r" | grep -q "^VIOLATION"; then caught="$caught $p"; echo "--- $p" >> $log; echo "$r" | grep -E "^  pyins" | cut -c1-400 >> $log; fi
-  if echo "$r" | grep -q "ANALYSIS-ERROR"; then echo "--- $p ANALYSIS-ERROR" >> $log; echo "$r" | grep ANALYSIS >> $log; fi
+  if echo "$r" | grep -q "ANALYSIS-ERROR"; then caught="$caught $p(analysis-error)"; echo "--- $p ANALYSIS-ERROR" >> $log; echo "$r" | grep ANALYSIS >> $log; fi
 done
 python3 - <<PY
 import json
@@ -38,9 +40,11 @@ try:
     m["summary"] = a.get("summary"); m["needs_to_manifest"] = a.get("needs_to_manifest")
 except Exception as e:
     m["summary"] = None
-m["what_i_ran"] = ["demo with change", "git stash; demo without change; git stash pop",
-                   "pytest -n 6 --deselect test_Turntable pyins/tests (with change)",
-                   "check.py Cxx --root <worktree> for all 19 properties"]
+m["what_i_ran"] = ["patch applied to a scratch copy of the current /repo/pyins",
+                   "demo on the patched copy (must fail) and on an unpatched copy (must pass)",
+                   "pytest -n 5 --deselect test_Turntable pyins/tests on the patched copy",
+                   "check.py Cxx --root <patched copy> for all 19 properties"]
 json.dump(m, open("$out/meta.json", "w"), indent=1)
 print(json.dumps({k: m[k] for k in ("property","confirmed","demo_exit_with_change","demo_exit_without_change","tests_with_change","checks_reporting_it")}))
 PY
+rm -rf $base $mut
